@@ -8,6 +8,7 @@ import SqlObjVerif.Lemmas.InhSelXSelBy
 import SqlObjVerif.Lemmas.InhSelXAlt
 import SqlObjVerif.Lemmas.InhSelXPatch
 import SqlObjVerif.Lemmas.InhSelXSelectChain
+import SqlObjVerif.Lemmas.InhIterX
 /-!
 # C15 — inheritance hierarchies stay consistent across their tables
 
@@ -1135,3 +1136,41 @@ example : (match selectN ⟨T0, 0, [3, 0, 5, 1, 2, 4]⟩ 8 4 ⟨fun _ => db0, no
     | .ret w _ => w.made
     | _ => none) = some ⟨0, .and (.and (.idEq 0 1) (.kind 1 3)) (.idEq 1 0), 0⟩ := by decide +kernel
 end SqlObjVerif.Inherit
+
+namespace SqlObjVerif.InhIter
+open SqlObjVerif.PyIS
+
+/-! ## `InheritableIteration.fetchChildren`, translated, with the two cursors explicit: concrete runs
+
+`fetchChildrenX` (`Model/InhIterX.lean`) RUNS the translated `fetchChildren`; `IW.c1` are the rows still pending on the
+iteration's OWN cursor (the batches to come), `IW.c2` those on the cursor `rawconn.cursor()` opens for the prefetch;
+`_executeRetry(rawconn, cursor, query)` replaces what is pending on THAT cursor.  Proved for every batch so far: the
+grouping loop and the storing loop (`Lemmas/InhIterX.lean`: `loop0_run`, `loop2_run`); the whole method and `next` (also
+translated: `iterNextProg`) are not yet proved for all inputs. -/
+
+/-- the database of the witness: class 3 has rows 1 (one column) and 2 (no column value), class 2 has row 4 -/
+def X1 : ICtx :=
+  { cni := some 1, k := 0,
+    rowsFor := fun d e =>
+      if d = 3 ∧ e = .idIn 3 [1, 2] then [crowV (1, .cons (.int 30) .nil), crowV (2, .nil)]
+      else if d = 2 ∧ e = .idc 2 .eq 4 then [crowV (4, .cons (.int 9) .nil)]
+      else [] }
+
+/-- a batch of four root rows (two `K3`, one `K2`, one plain) with ONE MORE ROW still pending on the iteration's own
+    cursor: the prefetch runs one `IN` query and one `=` query on the SECOND cursor, stores the child rows by id (an
+    empty row as `(None,)`), and leaves the pending row where it is — the next `fetchmany()` will deliver it -/
+example : (match fetchChildrenX X1
+      { c1 := [rowV 7 [.int 0] none], c2 := [], children := .nil,
+        results := Val.ofList [rowV 1 [.int 5] (some 3), rowV 2 [.int 6] (some 3), rowV 4 [.int 1] (some 2),
+                               rowV 5 [.int 0] none] } with
+    | .ret w _ => (w.c1, w.c2, w.children)
+    | _ => ([], [], .none)) =
+    ([rowV 7 [.int 0] none], [],
+     Val.ofList [.pair (.nat 1) (.cons (.int 30) .nil), .pair (.nat 2) (.cons .none .nil),
+                 .pair (.nat 4) (.cons (.int 9) .nil)]) := by decide +kernel
+/-- a source class without `childName` column: nothing is prefetched, no cursor is opened -/
+example : (match fetchChildrenX { X1 with cni := none }
+      { c1 := [rowV 7 [] none], c2 := [], children := .cons (.pair (.nat 1) .nil) .nil, results := .nil } with
+    | .ret w _ => (w.c1, w.children)
+    | _ => ([], .none)) = ([rowV 7 [] none], .nil) := by decide +kernel
+end SqlObjVerif.InhIter
